@@ -4,6 +4,7 @@
 -/
 import Lean.Data.Json
 import Rbql.Model.Engine
+import Rbql.Spec.EngineSpec
 namespace Driver
 open Rbql Lean
 
@@ -176,7 +177,15 @@ def opQuery (payload : String) : String :=
     | .error e => "bad-case " ++ e
     | .ok (q, refuse, A, B) =>
       let r := run q A B { refuseFrom := refuse }
+      -- cross-check of the specification layer (what the theorems state) on this very case
+      let specOk : Json :=
+        if q.isUpdate || q.isAgg || refuse.isSome then .null
+        else if let some e := (q.join.bind (fun js => joinBError js.rhs B)) then .bool (r.error == some e)
+        else match emissions q B A 0 with
+          | .ok es => .bool (r.error.isNone && r.rows == selectSpec q es)
+          | .error e => if q.top.isSome then .null else .bool (r.error == some e)
       (Json.mkObj [
+        ("specOk", specOk),
         ("rows", .arr (r.rows.map (fun row => Json.arr (row.map encVal).toArray)).toArray),
         ("err", encErr r.error),
         ("pulled", Json.num (JsonNumber.fromNat r.pulled)),
